@@ -23,7 +23,8 @@ LINTS = (("shared mutable fill", L.shared_mutable_fill), ("stale loop carry", L.
          ("mutable default argument", L.mutable_default_argument), ("late-binding closure", L.late_binding_closure),
          ("loop-scoped value read in a later loop", L.loop_scoped_value_in_later_loop), ("per-call memo keyed too narrowly", L.local_memo_key),
          ("ordered result from set iteration order", L.set_order_dependence),
-         ("deepcopy with a memo shared between loop iterations", L.deepcopy_shared_memo))
+         ("deepcopy with a memo shared between loop iterations", L.deepcopy_shared_memo),
+         ("float quotient truncated to an integer", L.truncated_quotient))
 
 _CONTROL = '''
 def a(keys):
@@ -72,6 +73,9 @@ def k2(items):
     for it in items:
         out.append(deepcopy(it, memo))
     return out
+
+def q(T, dt):
+    return int(T / dt), int(round(T / dt)), int(T // dt)
 
 def g(nodes):
     seen = {}
